@@ -55,6 +55,44 @@ type variant struct {
 	Views    int    `json:"views"`    // max number of views per fragment (<=1: single view)
 	Tail     int    `json:"tail"`     // bytes in the final block of a more=false fragment (0: full block)
 	ICompare bool   `json:"icompare"` // compare the I-level projection with the model state
+	Recycle  bool   `json:"recycle"`  // the caller recycles its []buffer.View slice like the fdbased link endpoint
+	rc       *recycler
+}
+
+// recycler is the buffer discipline of link/fdbased's dispatch loop: one
+// []buffer.View slice lives as long as the endpoint; for every frame its
+// first `used` slots are filled with freshly allocated views, the
+// VectorisedView handed up is built directly on that slice, and after the
+// upcall returns the slots are set to nil (and refilled for the next frame).
+// The byte arrays themselves are new for every frame.
+type recycler struct {
+	slots []buffer.View
+	used  int
+}
+
+func newRecycler() *recycler { return &recycler{slots: make([]buffer.View, 6)} }
+
+func (rc *recycler) wrap(pieces []buffer.View, n int) buffer.VectorisedView {
+	rc.used = copy(rc.slots, pieces)
+	return buffer.NewVectorisedView(n, rc.slots[:rc.used])
+}
+
+func (rc *recycler) release() {
+	if rc == nil {
+		return
+	}
+	for i := 0; i < rc.used; i++ {
+		rc.slots[i] = nil
+	}
+	rc.used = 0
+}
+
+// withRecycler returns v with its own recycler when v.Recycle is set.
+func (v variant) withRecycler() variant {
+	if v.Recycle {
+		v.rc = newRecycler()
+	}
+	return v
 }
 
 func (v variant) byteRange(f frag) (int, int) {
@@ -66,29 +104,33 @@ func (v variant) byteRange(f frag) (int, int) {
 	return first, last
 }
 
-func mkvv(k, ep, first, last, views int) (buffer.VectorisedView, []byte) {
+func mkvv(k, ep, first, last, views int, rc *recycler) (buffer.VectorisedView, []byte) {
 	n := last - first + 1
 	b := make([]byte, n)
 	for i := range b {
 		b[i] = pat(k, ep, first+i)
 	}
 	ref := append([]byte{}, b...)
-	if views <= 1 {
-		return buffer.View(b).ToVectorisedView(), ref
-	}
 	var vs []buffer.View
-	off, sz := 0, 1
-	for off < n && len(vs) < views-1 {
-		e := off + sz
-		if e > n {
-			e = n
+	if views <= 1 {
+		vs = []buffer.View{buffer.View(b)}
+	} else {
+		off, sz := 0, 1
+		for off < n && len(vs) < views-1 {
+			e := off + sz
+			if e > n {
+				e = n
+			}
+			vs = append(vs, buffer.View(b[off:e]))
+			off = e
+			sz = sz*2 + 1
 		}
-		vs = append(vs, buffer.View(b[off:e]))
-		off = e
-		sz = sz*2 + 1
+		if off < n {
+			vs = append(vs, buffer.View(b[off:]))
+		}
 	}
-	if off < n {
-		vs = append(vs, buffer.View(b[off:]))
+	if rc != nil {
+		return rc.wrap(vs, n), ref
 	}
 	return buffer.NewVectorisedView(n, vs), ref
 }
@@ -100,7 +142,8 @@ type result struct {
 	Panic   string
 }
 
-func call(f *fragmentation.Fragmentation, id uint32, first, last int, more bool, vv buffer.VectorisedView) (r result) {
+func call(f *fragmentation.Fragmentation, id uint32, first, last int, more bool, vv buffer.VectorisedView, rc *recycler) (r result) {
+	defer rc.release() // after the upcall (and whatever it handed up has been consumed), as fdbased does
 	defer func() {
 		if e := recover(); e != nil {
 			r = result{Panic: fmt.Sprint(e)}
@@ -224,6 +267,7 @@ func graph(path string) {
 	}
 	for pi, p := range g.Paths {
 		for _, v := range g.Variants {
+			v = v.withRecycler()
 			hi, lo := bigMem, bigMem/2
 			if g.High < 99 {
 				hi, lo = g.High*v.Scale, g.Low*v.Scale
@@ -236,8 +280,8 @@ func graph(path string) {
 				}
 				fr := fragOf(st.Args)
 				first, last := v.byteRange(fr)
-				vv, _ := mkvv(fr.K, 0, first, last, v.Views)
-				r := call(f, keyID(fr.K), first, last, fr.More, vv)
+				vv, _ := mkvv(fr.K, 0, first, last, v.Views, v.rc)
+				r := call(f, keyID(fr.K), first, last, fr.More, vv, v.rc)
 				calls++
 				res.Steps++
 				ms := g.States[st.Dst]
@@ -390,7 +434,7 @@ var seqVariants = []variant{
 
 func callEv(g int, fr frag, v variant, ep int) (map[string]interface{}, int, int, buffer.VectorisedView) {
 	first, last := v.byteRange(fr)
-	vv, ref := mkvv(fr.K, ep, first, last, v.Views)
+	vv, ref := mkvv(fr.K, ep, first, last, v.Views, v.rc)
 	return map[string]interface{}{"ev": "call", "g": g, "k": fr.K, "first": first, "last": last, "more": fr.More,
 		"bytes": ints(ref), "ep": ep, "t0": 0, "t1": 0}, first, last, vv
 }
@@ -429,11 +473,13 @@ func seq(out string, seed int64, n int) {
 			fs = fs[:14]
 		}
 		f := fragmentation.NewFragmentation(bigMem, bigMem/2, longTimeout)
-		tr.Log(map[string]interface{}{"ev": "reset", "mode": "strict", "hist": h, "variant": v.Name, "inconsistent": incons})
+		v.Recycle = h%2 == 1
+		v = v.withRecycler()
+		tr.Log(map[string]interface{}{"ev": "reset", "mode": "strict", "hist": h, "variant": v.Name, "inconsistent": incons, "recycle": v.Recycle})
 		for _, fr := range fs {
 			ev, first, last, vv := callEv(0, fr, v, 0)
 			tr.Log(ev)
-			res := call(f, keyID(fr.K), first, last, fr.More, vv)
+			res := call(f, keyID(fr.K), first, last, fr.More, vv, v.rc)
 			tr.Log(retEv(0, res))
 			if res.Panic != "" {
 				break
@@ -457,12 +503,20 @@ func seq(out string, seed int64, n int) {
 func longMode(out string, seed int64, n int, thorough bool) {
 	tr := vh.NewTrace(out)
 	r := rand.New(rand.NewSource(seed))
-	v := variant{Name: "x8", Scale: 8}
+	v0 := variant{Name: "x8", Scale: 8}
+	nhist := 0
 	one := func(k, b, d int) frag { return frag{K: k, First: b, Last: b, More: b < d-1} }
 	span := func(k, a, b, d int) frag { return frag{K: k, First: a, Last: b, More: b < d-1} }
 	run := func(info map[string]interface{}, fs []frag) {
 		f := fragmentation.NewFragmentation(bigMem, bigMem/2, longTimeout)
-		ev := map[string]interface{}{"ev": "reset", "mode": "strict", "variant": v.Name, "calls": len(fs)}
+		v := v0
+		v.Recycle = nhist%2 == 1
+		if nhist%4 >= 2 {
+			v.Views = 3
+		}
+		nhist++
+		v = v.withRecycler()
+		ev := map[string]interface{}{"ev": "reset", "mode": "strict", "variant": v.Name, "calls": len(fs), "recycle": v.Recycle, "views": v.Views}
 		for k, x := range info {
 			ev[k] = x
 		}
@@ -470,7 +524,7 @@ func longMode(out string, seed int64, n int, thorough bool) {
 		for _, fr := range fs {
 			ce, first, last, vv := callEv(0, fr, v, 0)
 			tr.Log(ce)
-			res := call(f, keyID(fr.K), first, last, fr.More, vv)
+			res := call(f, keyID(fr.K), first, last, fr.More, vv, v.rc)
 			tr.Log(retEv(0, res))
 			if res.Panic != "" {
 				return
@@ -613,18 +667,20 @@ func race(out string, seed int64, hists, G, K int) {
 			per[i%G] = append(per[i%G], fr)
 		}
 		f := fragmentation.NewFragmentation(bigMem, bigMem/2, longTimeout)
-		tr.Log(map[string]interface{}{"ev": "reset", "mode": "strict", "hist": h, "variant": v.Name})
+		v.Recycle = h%2 == 1
+		tr.Log(map[string]interface{}{"ev": "reset", "mode": "strict", "hist": h, "variant": v.Name, "recycle": v.Recycle})
 		start := make(chan struct{})
 		var wg sync.WaitGroup
 		for g := 0; g < G; g++ {
 			wg.Add(1)
 			go func(g int, fs []frag) {
 				defer wg.Done()
+				gv := v.withRecycler() // every goroutine is its own "link endpoint"
 				<-start
 				for _, fr := range fs {
-					ev, first, last, vv := callEv(g, fr, v, 0)
+					ev, first, last, vv := callEv(g, fr, gv, 0)
 					tr.Log(ev)
-					res := call(f, keyID(fr.K), first, last, fr.More, vv)
+					res := call(f, keyID(fr.K), first, last, fr.More, vv, gv.rc)
 					tr.Log(retEv(g, res))
 				}
 			}(g, per[g])
@@ -678,13 +734,15 @@ func timeoutMode(out string, seed int64, n int) {
 		go func(i int, c *tcase) {
 			defer wg.Done()
 			f := fragmentation.NewFragmentation(bigMem, bigMem/2, T)
+			c.v.Recycle = (i/len(shapes))%2 == 1
+			c.v = c.v.withRecycler()
 			c.events = append(c.events, map[string]interface{}{"ev": "reset", "mode": "timed", "case": i, "shape": c.shape,
-				"variant": c.v.Name, "timeout_ms": timeoutMS})
+				"variant": c.v.Name, "timeout_ms": timeoutMS, "recycle": c.v.Recycle})
 			start := time.Now()
 			send := func(fr frag, ep int) {
 				ev, first, last, vv := callEv(0, fr, c.v, ep)
 				ev["t0"] = int(time.Since(start) / time.Millisecond) // rounded down
-				res := call(f, keyID(fr.K), first, last, fr.More, vv)
+				res := call(f, keyID(fr.K), first, last, fr.More, vv, c.v.rc)
 				ev["t1"] = int((time.Since(start) + time.Millisecond - 1) / time.Millisecond) // rounded up
 				c.events = append(c.events, ev, retEv(0, res))
 			}
@@ -741,6 +799,7 @@ type gw struct {
 }
 
 type gsys struct {
+	wv []variant // per worker: its own recycler when the scenario asks for it
 	f  *fragmentation.Fragmentation
 	sc *gate.Sched
 	sn *scenario
@@ -754,6 +813,7 @@ func newGsys(sn *scenario) gate.System {
 	s.w = make([]gw, len(sn.Callers))
 	for i := range s.w {
 		s.w[i].pc = "idle"
+		s.wv = append(s.wv, sn.V.withRecycler())
 	}
 	return s
 }
@@ -818,9 +878,10 @@ func (s *gsys) Do(m gate.Move) []gate.Event {
 	if m.Op != "" {
 		fr := s.sn.Callers[m.W][w.pos]
 		w.pos++
-		ev, first, last, vv := callEv(m.W, fr, s.sn.V, 0)
+		wv := s.wv[m.W]
+		ev, first, last, vv := callEv(m.W, fr, wv, 0)
 		f := s.f
-		p := s.sc.Start(m.W, func() interface{} { return call(f, keyID(fr.K), first, last, fr.More, vv) })
+		p := s.sc.Start(m.W, func() interface{} { return call(f, keyID(fr.K), first, last, fr.More, vv, wv.rc) })
 		return append([]gate.Event{gate.Event(ev)}, s.after(m.W, p, before)...)
 	}
 	return s.after(m.W, s.sc.Grant(m.W), before)
@@ -882,11 +943,12 @@ func stepsMode(in, out string) {
 	}
 	f := fragmentation.NewFragmentation(hi, lo, longTimeout)
 	tr := vh.NewTrace(out)
-	tr.Log(map[string]interface{}{"ev": "reset", "mode": mode, "variant": si.V.Name})
+	si.V = si.V.withRecycler()
+	tr.Log(map[string]interface{}{"ev": "reset", "mode": mode, "variant": si.V.Name, "recycle": si.V.Recycle})
 	for _, fr := range si.Steps {
 		ev, first, last, vv := callEv(0, fr, si.V, 0)
 		tr.Log(ev)
-		res := call(f, keyID(fr.K), first, last, fr.More, vv)
+		res := call(f, keyID(fr.K), first, last, fr.More, vv, si.V.rc)
 		tr.Log(retEv(0, res))
 		if res.Panic != "" {
 			break
